@@ -1,15 +1,16 @@
 # claim(id, technique, level text, trusted base / assumptions, DESIGN section)
-claim('C13', 'path rules on MIR CFGs (edge-cut / must-pass-through): Pending discipline, drain-before-fill, publish-then-notify',
+claim('C13', 'path rules on MIR CFGs (edge-cut / must-pass-through): Pending discipline, drain-before-fill, publish-then-notify, status-channel producer',
       'Decides for every CFG path (hence every interleaving, by the register/re-check + publish/notify argument) that no hand-written future, stream or '
       'synchronous read entry point can park while a wake-up is outstanding. All instances are discovered from the type-checked program; the protocol '
       'argument itself (textbook) is assumed, not mechanised.',
       'rustc front end and MIR construction; mirfacts extractor; std Waker / mio channel semantics; one waker slot per entity.',
       'DESIGN.md section 4 C13')
 
-claim('C09', 'loop-progress rule (must-pass-through on every cycle query->query and on every non-empty exit), outer-loop and wrapper rules on MIR',
+claim('C09', 'loop-progress rule (must-pass-through on every cycle query->query and on every non-empty exit), outer-loop and wrapper rules, content-taint hazard enumeration on the read path (all on MIR)',
       'Decides that every loop on the read/take call graph that re-issues a receive-cache query advances both read pointers on every path back to the query, '
       'that every non-empty exit advances them too (reported exactly once), and that wrappers and outer loops only continue after a consumed change. '
-      'Termination then follows for every cache content because each iteration consumes one change of a finite cache.',
+      'Termination then follows for every cache content because each iteration consumes one change of a finite cache. Also decided: no index/slice/unwrap/panic site on the read path '
+      '(about 300 functions) is reached by content of a cached change without a dominating length check or clamp, apart from four reviewed sites (a panic there poisons the cache locks).',
       'rustc front end + MIR; mirfacts; user-supplied Decode/DeserializerAdapter terminate; topic-cache iterators are finite.',
       'DESIGN.md section 4 C09')
 claim('C10', 'abstract interpretation of MIR over a finite ordering domain (exhaustive truth table) + provenance rules',
@@ -72,10 +73,11 @@ claim('C11', 'who-may-write (field / map mutation sites), pairing and guard (edg
       'rustc front end + MIR; mirfacts; BTreeMap semantics.',
       'DESIGN.md section 4 C11')
 
-claim('C01', 'provenance (origin terms with capture / getter resolution) and guard (edge-cut) rules on MIR',
+claim('C01', 'provenance (origin terms with capture / getter resolution) and guard (edge-cut) rules on MIR; store-aware path evaluation with guard entailment for the NumberSet iterator',
       'Decides named necessary conditions of in-order, exactly-once, hole-free hand-over: the reliable window is exclusive on both ends with lower = read pointer and '
       'upper = max(reliable marker, lower+1); the read pointer is advanced to exactly the change returned; the reliable marker is always the ack_base of the same writer\'s proxy; '
-      'duplicates are dropped before the cache; CacheChange fields come from the delivering submessage; exclusive "..._before" bounds are decremented when used as inclusive range ends. '
+      'duplicates are dropped before the cache; CacheChange fields come from the delivering submessage; exclusive "..._before" bounds are decremented when used as inclusive range ends; the NumberSet iterator feeding GAP handling never yields a bit index >= num_bits '
+      '(store-aware evaluation of every path of next/next_back). '
       'Ordering over arbitrary DATA/GAP/HEARTBEAT histories is NOT decided.',
       'rustc front end + MIR; mirfacts; BTreeMap::range semantics; naming convention *_before = exclusive bound (R01.6).',
       'DESIGN.md section 4 C01')
@@ -114,11 +116,11 @@ claim('C08', 'effect (who-may-remove), must-call and monotone-write rules on the
       'rustc front end + MIR (polymorphic bodies); mirfacts.',
       'DESIGN.md section 4 C08')
 
-claim('C14', 'provenance of header lengths, path-enumerated codec sequence agreement, controlling-condition comparison, interval reasoning over window constants (all on MIR)',
+claim('C14', 'provenance of header lengths, path-enumerated codec sequence agreement, controlling-condition comparison, interval reasoning over window constants, store-aware path evaluation with guard entailment (all on MIR)',
       'Round-trip equality for all values is NOT decided. Decided: every SubmessageHeader.content_length is the length of the very body in the same Submessage or a literal equal to '
       'the fixed size computed from the ADT table; the hand-written SequenceNumber / NumberSet / SubmessageHeader codecs write and read the same primitive sequence on every path; the '
       'InlineQos flag and inline_qos presence share one controlling condition and the DDSData variant table matches the reader\'s; from_base_and_set can never produce more bits than '
-      'read_from accepts (256) and iteration stays inside [0, num_bits).',
+      'read_from accepts (256), and on every path of NumberSetIter::next/next_back to a result the comparisons passed entail index < rev_at_bit <= num_bits (no member outside the window).',
       'rustc front end + MIR; mirfacts; derived speedy codecs agree by construction; Data/DataFrag cursor parsers not covered by the sequence rule.',
       'DESIGN.md section 4 C14')
 claim('C15', 'table extraction from MIR (ParameterId constant, wire type argument, multiplicity from control shape) and table agreement; emission-condition classification',
@@ -129,11 +131,12 @@ claim('C15', 'table extraction from MIR (ParameterId constant, wire type argumen
       'rustc front end + MIR (both feature sets); mirfacts; wrapper pairs Locator/repr::Locator, String/StringWithNul.',
       'DESIGN.md section 4 C15')
 
-claim('C06', 'interprocedural wire-taint over the receive call graph; hazard-site enumeration (range loops, allocation sizes, index/slice/cursor ops, unwrap/assert/panic, BTreeMap::range) with discharge by type rules, dominating guards and re-checked named guards',
+claim('C06', 'interprocedural wire-taint over the receive call graph; hazard-site enumeration (range loops, allocation sizes, index/slice/cursor ops, unwrap/assert/panic, BTreeMap::range) with discharge by type rules, dominating guards and re-checked named guards; who-may-call rule for blocking primitives and provenance of the notification socket mode',
       'Decides that every site where a wire-controlled value can reach a loop bound over a sequence-number range, an allocation size, an indexing / slicing / cursor operation, an explicit '
       'panic or a BTreeMap::range on the code reachable from the receive entry points (about 580 functions) is discharged by a recognised bound or by a named guard that is re-checked on every '
       'run (parser validity checks, cursor discipline, window limits, fit-to-buffer check); unknown sites and vanished guards are reported. Two open hazards are known findings (F2 GAP range '
-      'materialisation, F3 allocation sized by data_size), two were repaired (F1, F4); all four were demonstrated. Proportionality as a quantity and reviewed relational invariants are counted separately.',
+      'materialisation, F3 allocation sized by data_size), two were repaired (F1, F4); all four were demonstrated. Also decided: no blocking channel/thread primitive is reachable from the receive entry points and the one socket the receive thread writes to whose peer the application drains is set non-blocking '
+      'before use. Proportionality as a quantity and reviewed relational invariants are counted separately.',
       'rustc front end + MIR; mirfacts; taint sources = wire submessage types, speedy reads, cursor positions; dyn calls over-approximated; panics inside dependencies only via the listed call sites; release (wrapping) arithmetic.',
       'DESIGN.md section 4 C06')
 
